@@ -134,7 +134,10 @@ def run(ctx, rep):
         "Node.copy analysed on all paths with a small may-domain (which container fields of the clone still alias the "
         "original's); freshness of every re-binding expression and of every element put into the child list; id re-binding, "
         "registration order and exits by marker dataflow; parent links of the child copies by the pairing rule of C09")
-    rep.rules_run = ["R1", "R2", "R3", "R4", "R5"]
+    rep.rules_run = ["R1", "R2", "R3", "R4", "R5", "R6"]
+    from .c12_worlds import rule_r6
+    if getattr(rep, "only", None) in (None, "R6"):
+        rule_r6(ctx, rep)
     rep.assumptions += ["NOT decided: uuid1 uniqueness; value equality of copied strings (immutable, shared by reference)"]
     prog = ctx.prog
     w = ctx.world
